@@ -515,8 +515,12 @@ func c12exec(c *h.Ctx, cs *h.Case) {
 				}
 				if distinctKeys {
 					check(ro, t, c12want{"nary", len(keys), N, len(keys), first, true}, "")
-				} else if t.Root.RosterIndex != first && cs.Class != "boundary" {
-					cs.Fail("nary-root", fmt.Sprintf("root is roster member %d, expected the first match %d — %s", t.Root.RosterIndex, first, op))
+				} else if cs.Class != "boundary" {
+					// a roster that lists a server several times: node ids repeat (outside the node-id clause), everything
+					// else must hold — one node per roster *position*, the requested root, at most N children, levels filled
+					if what, detail, _ := c12walk(ro, t, c12want{"nary", len(keys), N, len(keys), first, true}); what != "" && what != "dup-node-id" {
+						cs.Fail("nary-"+what, detail+" (roster with a server listed several times) — "+op)
+					}
 				}
 			case len(tk) == 7 && tk[1] == "narymut":
 				// the roster is searched (a tree is generated), then two entries of its list are exchanged
@@ -585,8 +589,12 @@ func c12exec(c *h.Ctx, cs *h.Case) {
 				}
 				if distinctKeys {
 					check(ro, t, c12want{"nary", len(keys), N, len(keys), first, true}, "")
-				} else if t.Root.RosterIndex != first && cs.Class != "boundary" {
-					cs.Fail("nary-root", fmt.Sprintf("root is roster member %d, expected the first match %d — %s", t.Root.RosterIndex, first, op))
+				} else if cs.Class != "boundary" {
+					// a roster that lists a server several times: node ids repeat (outside the node-id clause), everything
+					// else must hold — one node per roster *position*, the requested root, at most N children, levels filled
+					if what, detail, _ := c12walk(ro, t, c12want{"nary", len(keys), N, len(keys), first, true}); what != "" && what != "dup-node-id" {
+						cs.Fail("nary-"+what, detail+" (roster with a server listed several times) — "+op)
+					}
 				}
 				// the lookups themselves, on the list as it is now
 				for p, si := range ro.List {
